@@ -3293,7 +3293,8 @@ class quantized_hswish(quantized_bits):  # pylint: disable=invalid-name
 
     base_config = super(quantized_hswish, self).get_config()
     # quantized_hswish.__init__ does not take these quantized_bits arguments.
-    for key in ("elements_per_scale", "min_po2_exponent", "max_po2_exponent"):
+    for key in ("keep_negative", "post_training_scale", "elements_per_scale",
+                "min_po2_exponent", "max_po2_exponent"):
       base_config.pop(key, None)
 
     config = {
